@@ -137,12 +137,42 @@ def tables(variant=0):
     return rt, keys, routing_tree_to_tables(rt, keys)
 
 
+def scramble(o, depth=0):
+    """The result of a call belongs to the caller: empty every list, dict
+    and set reachable from it (after it has been recorded).  A later call
+    must not be affected."""
+    from rig.place_and_route.routing_tree import RoutingTree
+    if depth > 6:
+        return
+    if isinstance(o, RoutingTree):
+        scramble(o.children, depth + 1)
+        return
+    if isinstance(o, dict):
+        for v in list(o.values()):
+            scramble(v, depth + 1)
+        o.clear()
+    elif isinstance(o, list):
+        for v in list(o):
+            scramble(v, depth + 1)
+        del o[:]
+    elif isinstance(o, set):
+        o.clear()
+    elif isinstance(o, tuple):
+        for v in o:
+            scramble(v, depth + 1)
+
+
 def with_args(build, call):
     args = build()
     before = snap(*args)
     res = call(*args)
     after = snap(*args)
-    return canon(res), ([] if before == after else ["arguments"])
+    out = canon(res)
+    try:
+        scramble(res)
+    except Exception:
+        pass
+    return out, ([] if before == after else ["arguments"])
 
 
 def c_place(mod, variant=0, **kw):
